@@ -63,7 +63,7 @@ var clauseKinds = map[string]bool{
 	"import": true, "maypanic": true, "opaque": true, "holds": true, "locked": true,
 	"reads": true, "fresh": true, "atcall": true, "unreachable": true, "emits": true,
 	"returns": true, "use": true, "axiom": true, "induction": true, "params": true,
-	"terminates": true, "field": true, "sig": true, "group": true, "noalloc": true, "deadcode": true, "replay": true, "witness": true, "lockset": true, "rely": true, "relocks": true, "ghostvar": true, "ghostinit": true, "waive": true, "lockkey": true, "noreturn": true, "effect": true, "noframe": true,
+	"terminates": true, "field": true, "sig": true, "group": true, "noalloc": true, "deadcode": true, "replay": true, "witness": true, "lockset": true, "rely": true, "relocks": true, "ghostvar": true, "ghostinit": true, "waive": true, "assertcall": true, "lockkey": true, "noreturn": true, "effect": true, "noframe": true,
 }
 
 var blockKinds = map[string]bool{"func": true, "spec": true, "monitor": true, "extern": true, "lemma": true, "type": true, "actor": true}
